@@ -503,7 +503,7 @@ def judge_case(ctx, case, R, M, extern=None):
     ctx.judge(sub_case(case, "py"), R["after"], R["before"], None, what="model parameter values after code generation")
     # the Lean hypothesis of C07_equiv_partial, restated on the wire form
     if M is not None:
-        in_scope = not (feats["ia_par"] or feats["ia_var"] or feats["dyn_coef"] or feats["var_without_eq"]) and len(case["content"]["vars"]) > 0
+        in_scope = not (feats["ia_par"] or feats["dyn_coef"] or feats["var_without_eq"]) and len(case["content"]["vars"]) > 0
         if M["okC"] != in_scope:
             ctx.add_drift(sub_case(case, "py"), {"in_scope": in_scope}, {"okC": M["okC"]}, "hypothesis okC of C07_equiv_partial")
         ctx.hist["okC_true" if M["okC"] else "okC_false"] = ctx.hist.get("okC_true" if M["okC"] else "okC_false", 0) + 1
